@@ -3,9 +3,11 @@ package main
 import (
 	"encoding/json"
 	"fmt"
+	"reflect"
 	"sort"
 
 	pgs "github.com/lyft/protoc-gen-star/v2"
+	"google.golang.org/protobuf/proto"
 	"google.golang.org/protobuf/reflect/protoregistry"
 	descriptor "google.golang.org/protobuf/types/descriptorpb"
 )
@@ -19,6 +21,8 @@ type astRun struct {
 	failed bool
 	msg    string
 	reg    *protoregistry.Files
+	// pristine: descriptors of a copy of the request that pgs never saw, by declaration (lazily built)
+	pristine map[string]proto.Message
 }
 
 func buildAST(w wWorld) (run *astRun) {
@@ -383,7 +387,13 @@ func (e astEngine) Run(raw json.RawMessage) (interface{}, error) {
 	case "c03":
 		return observeC03(r), nil
 	case "c04":
-		return observeC04(r), nil
+		// the derived relations are asked file by file; a second AST of the same request is asked in
+		// the opposite file order (importers before their imports) - the answers may not depend on it
+		fwd := observeC04(r, false)
+		if rev := observeC04(buildAST(w), true); !reflect.DeepEqual(fwd, rev) {
+			return rev, nil
+		}
+		return fwd, nil
 	case "c08":
 		return observeC08(r), nil
 	case "c09":
